@@ -126,6 +126,7 @@ pub fn run(ctx: &Ctx) {
     let seed = ctx.seed;
     table_list(ctx, "c04.directed", directed_programs(ALL, seed), &oracle, &nontrivial);
     generic_address_helpers(ctx);
+    uefi_error_records(ctx);
     one_field_sweep(ctx);
     table_pt(ctx, "c04.random", ALL, ctx.scale(8_000, 400_000), &oracle, &nontrivial);
 }
@@ -162,6 +163,118 @@ fn generic_address_helpers(ctx: &Ctx) {
     vs.sort_by_key(|v| v.sig());
     vs.dedup_by_key(|v| v.sig());
     ctx.report("c04.generic-address", serde_json::json!({"case": "generic-address-helpers"}), vs);
+}
+
+/// The generic error status block and its data entries (ACPI 6.5 18.3.2.7.1, tables 18.11 and
+/// 18.12): public objects of src/hest.rs that are written to the error status region, not into
+/// a table.
+fn uefi_error_records(ctx: &Ctx) {
+    let (n, vs) = uefi_error_record_violations();
+    ctx.add_evals(n);
+    ctx.add_nontrivial_counted(n);
+    ctx.add_engine("directed:c04.uefi-error-records", n);
+    ctx.report("c04.uefi-error-records", serde_json::json!({"case": "uefi-error-records"}), vs);
+}
+
+fn uefi_error_record_violations() -> (u64, Vec<Violation>) {
+    use acpi_tables::hest::{ErrorSeverity, GenericErrorData, GenericErrorStatus};
+    let mut vs = Vec::new();
+    let mut n = 0u64;
+    let sevs = [(ErrorSeverity::Recoverable, 0u32), (ErrorSeverity::Fatal, 1), (ErrorSeverity::Correctable, 2), (ErrorSeverity::None, 3)];
+    let counts = [0u32, 1, 2, 3, 0xff, 0x100, u32::MAX];
+    for (sev, code) in sevs {
+        for cc in counts {
+            for uc in counts {
+                n += 1;
+                let b = ser(&GenericErrorStatus::new(cc, uc, sev));
+                let mut bad = |detail: &str, info: String| vs.push(Violation::new("C04", "hest::GenericErrorStatus", "layout-diff", detail.to_string(), format!("correctable={} uncorrectable={} severity={} bytes={:02x?} {}", cc, uc, code, b, info)));
+                if b.len() != 20 {
+                    bad("block size", format!("len={}", b.len()));
+                    continue;
+                }
+                let st = le32(&b, 0);
+                // bit 0 uncorrectable valid, bit 1 correctable valid, bit 2 multiple uncorrectable,
+                // bit 3 multiple correctable, bits 4-13 entry count (no entries can be added), rest reserved
+                let class = |count: u32, valid: u32, multiple: u32, name: &str| -> Option<String> {
+                    let got = st & ((1 << valid) | (1 << multiple));
+                    match count {
+                        0 if got != 0 => Some(format!("{}: no error of this class, bits {:#x} set", name, got)),
+                        1 if got != 1 << valid => Some(format!("{}: one error, expected the valid bit only, found {:#x}", name, got)),
+                        c if c > 1 && got & (1 << multiple) == 0 => Some(format!("{}: {} errors, multiple bit clear", name, c)),
+                        _ => None,
+                    }
+                };
+                if let Some(e) = class(uc, 0, 2, "uncorrectable") {
+                    bad("block-status uncorrectable bits", e);
+                }
+                if let Some(e) = class(cc, 1, 3, "correctable") {
+                    bad("block-status correctable bits", e);
+                }
+                if st >> 4 != 0 {
+                    bad("block-status reserved/count bits", format!("status={:#x}", st));
+                }
+                if le32(&b, 4) != 0 || le32(&b, 8) != 0 || le32(&b, 12) != 0 {
+                    bad("raw-data/data-length fields", String::new());
+                }
+                if le32(&b, 16) != code {
+                    bad("severity", format!("found={}", le32(&b, 16)));
+                }
+            }
+        }
+    }
+    // data entry: every pub field carries a distinct pattern
+    for (sev, code) in sevs {
+        for round in 0..4u8 {
+            n += 1;
+            let mut d = GenericErrorData::new(sev);
+            let k = round.wrapping_mul(0x31);
+            d.section_type = 0xa1b2u16.wrapping_add(k as u16);
+            d.revision = 0x0300 + round as u16;
+            d.validation = 0xc3 ^ k;
+            d.flags = 0xd4 ^ k;
+            d.error_data_length = 0x0102_0304u32.wrapping_mul(round as u32 + 1);
+            d.fru_id = core::array::from_fn(|i| 0x10 + i as u8 + k);
+            d.fru_text = core::array::from_fn(|i| 0x40 + i as u8 + k);
+            d.timestamp = core::array::from_fn(|i| 0x70 + i as u8 + k);
+            if round % 2 == 1 {
+                d.add_data(Box::new(0x1122_3344_5566_7788u64));
+            }
+            let b = ser(&d);
+            // table 18.12: section type 16 | severity 4 | revision 2 | validation 1 | flags 1 |
+            // data length 4 | FRU id 16 | FRU text 20 | timestamp 8 | data
+            let tail = |v: &mut Vec<u8>| {
+                v.extend_from_slice(&code.to_le_bytes());
+                v.extend_from_slice(&d.revision.to_le_bytes());
+                v.push(d.validation);
+                v.push(d.flags);
+                v.extend_from_slice(&d.error_data_length.to_le_bytes());
+                v.extend_from_slice(&d.fru_id);
+                v.extend_from_slice(&d.fru_text);
+                v.extend_from_slice(&d.timestamp);
+                if round % 2 == 1 {
+                    v.extend_from_slice(&[0x0e, 0x88, 0x77, 0x66, 0x55, 0x44, 0x33, 0x22, 0x11]);
+                }
+            };
+            let mut spec = vec![0u8; 16];
+            spec[..2].copy_from_slice(&d.section_type.to_le_bytes());
+            tail(&mut spec);
+            let mut short = d.section_type.to_le_bytes().to_vec();
+            tail(&mut short);
+            if b == spec {
+                continue;
+            }
+            if b == short {
+                // everything else is in place: the one disagreement is the width of the first field
+                vs.push(Violation::new("C04", "hest::GenericErrorData", "layout-diff", "section-type is 2 bytes (specification: 16-byte GUID)".into(), format!("entry header is {} bytes, table 18.12 has 72", b.len() - if round % 2 == 1 { 9 } else { 0 })));
+                continue;
+            }
+            let off = b.iter().zip(short.iter()).position(|(x, y)| x != y).unwrap_or(b.len().min(short.len()));
+            vs.push(Violation::new("C04", "hest::GenericErrorData", "layout-diff", format!("entry-offset={}", off), format!("got={:02x?} want={:02x?}", b, short)));
+        }
+    }
+    vs.sort_by_key(|v| v.sig());
+    vs.dedup_by_key(|v| v.sig());
+    (n, vs)
 }
 
 /// One field at a time: programs whose shape comes from a byte string as usual, but in which
@@ -218,6 +331,9 @@ fn one_field_sweep(ctx: &Ctx) {
 pub fn replay(case: &serde_json::Value) -> Vec<Violation> {
     if case.as_str() == Some("generic-address-helpers") {
         return vec![]; // re-run by every check run (directed, no stored input)
+    }
+    if case.as_str() == Some("uefi-error-records") {
+        return uefi_error_record_violations().1;
     }
     let p: Program = serde_json::from_value(case.clone()).expect("C04 case");
     oracle(&p)
